@@ -933,7 +933,10 @@ def history_checks(ctx):
     try:
         orb.correct()
         T1 = float(orb.period)
-        orb.period = T1 * (1.0 + 3e-6)          # e.g. a period typed in with six significant digits
+        # a FRESH orbit of the same family that is given a nearby period before its first correction (e.g. typed in with six significant
+        # digits, or inherited from a neighbouring family member)
+        orb = sysm.get_libration_point(1).create_orbit("halo", amplitude_z=0.12, zenith="northern")
+        orb.period = T1 * (1.0 + 3e-6)
         res = orb.correct()
         T2 = float(orb.period)
         x0 = np.array(orb.initial_state, dtype=float)
@@ -943,7 +946,7 @@ def history_checks(ctx):
             viol_once(ctx, "orbit:halo:stale-period-after-correction",
                       "correct() on an orbit that carried the nearby period %.12g leaves period=%.12g although the correction found 2*half_period=%.12g "
                       "(closure over the orbit's period %.3g)" % (T1 * (1.0 + 3e-6), T2, 2.0 * float(res.half_period), clos),
-                      {"system": "earth-moon", "L": 1, "family": "halo", "history": ["correct()", "period := T*(1+3e-6)", "correct()"],
+                      {"system": "earth-moon", "L": 1, "family": "halo", "history": ["fresh orbit", "period := T*(1+3e-6)", "correct()"],
                        "period_after": T2, "two_half_period": 2.0 * float(res.half_period), "initial_state": x0.tolist(), "closure": clos})
     except Exception as ex:
         ctx.notes.append("history_checks(period): %r" % (ex,))
